@@ -184,4 +184,32 @@ Tls13Open(T, k, iv, seq, body) ==
          IF ~r.ok THEN [ok |-> FALSE, type |-> 0, out |-> <<>>]
          ELSE LET i == LastNonZero(r.out, Len(r.out)) IN
               IF i = 0 THEN [ok |-> FALSE, type |-> 0, out |-> <<>>] ELSE [ok |-> TRUE, type |-> r.out[i], out |-> Take(r.out, i - 1)]
+(* ---------------------------------------------------------------------------------------------------------------------- *)
+(* Stream ciphers.  The keystream generators are the primitives (table rows "zuc", "zuc256", "zuc256mac32/64/128": key \o iv *)
+(* -> keystream bytes; "chacha": key \o counter \o nonce -> one 64-byte block); everything above them is defined here:      *)
+(* byte and bit-exact encryption (128-EEA3), the universal-hash MACs (128-EIA3, ZUC-256 MAC) over keystream bit windows,   *)
+(* the 3GPP IV layouts, the ChaCha20 block counter.                                                                        *)
+KsBytes(T, v, key, iv, n) == Take(Lookup(T, v, key \o iv), n)
+ZucEnc(T, key, iv, m) == XorB(m, KsBytes(T, "zuc", key, iv, Len(m)))
+EeaIv(count4, bearer, dir) == LET h == count4 \o <<bearer * 8 + dir * 4, 0, 0, 0>> IN h \o h
+EiaIv(count4, bearer, dir) == LET h == count4 \o <<bearer * 8, 0, 0, 0>> IN
+                              [i \in 1..16 |-> IF i \in {9, 15} THEN h[((i - 1) % 8) + 1] ^^ (dir * 128) ELSE h[((i - 1) % 8) + 1]]
+(* keep the first nbits bits of s, clear the rest *)
+MaskBits(s, nbits) == [i \in 1..Len(s) |-> IF 8 * i <= nbits THEN s[i] ELSE IF 8 * (i - 1) >= nbits THEN 0
+                                            ELSE LET d == 2 ^ (8 * i - nbits) IN (s[i] \div d) * d]
+Eea3(T, key, count4, bearer, dir, nbits, m) == MaskBits(XorB(m, KsBytes(T, "zuc", key, EeaIv(count4, bearer, dir), Len(m))), nbits)   \* m: whole 32-bit words
+BitAt(s, i) == (s[(i \div 8) + 1] \div (2 ^ (7 - (i % 8)))) % 2                                   \* bit i of s, most significant first
+ByteAtBit(z, b) == LET q == b \div 8  r == b % 8 IN IF r = 0 THEN z[q + 1] ELSE ((z[q + 1] * (2 ^ r)) % 256) + (z[q + 2] \div (2 ^ (8 - r)))
+Window(z, b, nbytes) == [j \in 1..nbytes |-> ByteAtBit(z, b + 8 * (j - 1))]                       \* 8*nbytes keystream bits starting at bit b
+HashBits(z, m, nbits, off, nbytes) == FoldLeft(LAMBDA acc, i : IF BitAt(m, i - 1) = 1 THEN XorB(acc, Window(z, off + i - 1, nbytes)) ELSE acc,
+                                              Zeros(nbytes), IdxSeq(nbits))
+EiaCore(T, key, iv, nbits, m) == LET L == CeilDiv(nbits, 32) + 2
+                                     z == KsBytes(T, "zuc", key, iv, 4 * L + 1)
+                                 IN XorB(XorB(HashBits(z, m, nbits, 0, 4), Window(z, nbits, 4)), Window(z, 32 * (L - 1), 4))
+Eia3(T, key, count4, bearer, dir, nbits, m) == EiaCore(T, key, EiaIv(count4, bearer, dir), nbits, m)
+Zuc256Mac(T, key, iv, t, nbits, m) == LET nw == CeilDiv(nbits + 2 * t, 32)
+                                          z == KsBytes(T, IF t = 32 THEN "zuc256mac32" ELSE IF t = 64 THEN "zuc256mac64" ELSE "zuc256mac128", key, iv, 4 * nw + 1)
+                                      IN XorB(XorB(Window(z, 0, t \div 8), HashBits(z, m, nbits, t, t \div 8)), Window(z, t + nbits, t \div 8))
+AddLE(b, n) == Rev(AddBE(Rev(b), n))
+ChaChaKs(T, key, ctr, nonce, blocks) == Concat([i \in 1..blocks |-> Lookup(T, "chacha", key \o AddLE(ctr, i - 1) \o nonce)])
 =============================================================================
